@@ -275,10 +275,105 @@ def judge(ctx, sc, acts, obs):
                 return
 
 
-def render_isolation(ctx, tier):
-    """concurrent renders with distinct contexts each equal their solo output (exploration)"""
+class BudgetSched:
+    """line-level preemption: a worker runs `budget` traced lines, then parks until granted again"""
+
+    def __init__(self, n):
+        self.cv = threading.Condition()
+        self.budget = [0] * n
+        self.lines = [0] * n
+        self.state = ["new"] * n       # new | parked | running | done
+        self.tls = threading.local()
+
+    def trace(self, frame, event, arg):
+        fn = frame.f_code.co_filename
+        if not (fn.startswith("/repo/mako") or not fn.startswith("/") or fn.startswith("memory:")):
+            return None
+        return self.local
+
+    def local(self, frame, event, arg):
+        if event == "line":
+            tid = self.tls.tid
+            self.lines[tid] += 1
+            self.budget[tid] -= 1
+            if self.budget[tid] <= 0:
+                with self.cv:
+                    self.state[tid] = "parked"
+                    self.cv.notify_all()
+                    while self.budget[tid] <= 0:
+                        self.cv.wait()
+                    self.state[tid] = "running"
+        return self.local
+
+    def run(self, jobs, plan, timeout=60):
+        """jobs: callables; plan: list of (tid, budget) grants, then everybody runs to completion"""
+        n = len(jobs)
+        outs = [None] * n
+
+        def work(tid):
+            self.tls.tid = tid
+            with self.cv:
+                self.state[tid] = "parked"
+                self.cv.notify_all()
+                while self.budget[tid] <= 0:
+                    self.cv.wait()
+                self.state[tid] = "running"
+            sys.settrace(self.trace)
+            try:
+                outs[tid] = jobs[tid]()
+            except BaseException as e:  # noqa
+                outs[tid] = "raised " + type(e).__name__ + ": " + str(e)[:80]
+            finally:
+                sys.settrace(None)
+                with self.cv:
+                    self.state[tid] = "done"
+                    self.budget[tid] = 1 << 60
+                    self.cv.notify_all()
+        ths = [threading.Thread(target=work, args=(i,), daemon=True) for i in range(n)]
+        for t in ths:
+            t.start()
+        grants = list(plan) + [(i, 1 << 40) for i in range(n)]
+        with self.cv:
+            for tid, b in grants:
+                if not self.cv.wait_for(lambda: all(st in ("parked", "done") for st in self.state), timeout):
+                    return outs, "hang"
+                if self.state[tid] == "done":
+                    continue
+                self.budget[tid] = b
+                self.state[tid] = "running"
+                self.cv.notify_all()
+                if not self.cv.wait_for(lambda: self.state[tid] in ("parked", "done"), timeout):
+                    return outs, "hang"
+        for t in ths:
+            t.join(timeout)
+        return outs, None
+
+
+class _CtxPartitionedImpl:
+    pass
+
+
+def _render_scenarios():
+    from mako import cache as mcache
     from mako.lookup import TemplateLookup
-    lk = TemplateLookup()
+
+    class LangImpl(mcache.CacheImpl):
+        """a backend that asks for the context and keeps one entry per language"""
+        pass_context = True
+        store = {}
+
+        def get_or_create(self, key, creation_function, **kw):
+            k = (self.cache.id, key, kw["context"].get("lang"))
+            if k not in LangImpl.store:
+                LangImpl.store[k] = creation_function()
+            return LangImpl.store[k]
+
+        def invalidate(self, key, **kw):
+            pass
+    sys.modules["c16_langimpl"] = type(sys)("c16_langimpl")
+    sys.modules["c16_langimpl"].LangImpl = LangImpl
+    mcache.register_plugin("c16lang", "c16_langimpl", "LangImpl")
+
     sources = {
         "/base.html": "<%def name='wrap(x)'>[${x}:${caller.body()}]</%def>BASE(${self.body()})",
         "/ns.html": "<%def name='d(a)'><% import time %>${a}-${capture(e, a)}</%def><%def name='e(a)'>e${a}</%def>",
@@ -288,45 +383,91 @@ ${loop.index}${n.d(who + str(i))}<%self:wrap x="${who}">${i}${who}</%self:wrap>
 % endfor
 <%include file="/inc.html" args="who=who"/>""",
         "/inc.html": "<%page args='who'/>inc:${who}:${len(who)}",
+        "/cached.html": "<%def name='greet()' cached='True'>${hello[lang]}, ${lang}!</%def>${greet()} ${who}",
+        "/many.html": "% for j in range(6):\n<%include file='/i${str(j)}.html'/>\n% endfor\n${who}",
     }
-    for k_, v_ in sources.items():
-        lk.put_string(k_, v_)
-    n_threads = 4 if tier == "quick" else 8
-    rounds = 6 if tier == "quick" else 60
-    solo = {}
-    for w in range(n_threads):
-        solo[w] = TemplateLookup_render(lk, w)
-    old = sys.getswitchinterval()
-    sys.setswitchinterval(1e-6)
-    try:
-        for r in range(rounds):
-            # fresh lookup each round: first-use initialisation races included
-            lk2 = TemplateLookup()
-            for k_, v_ in sources.items():
-                lk2.put_string(k_, v_)
-            outs = {}
-            bar = threading.Barrier(n_threads)
+    for j in range(6):
+        sources["/i%d.html" % j] = "<%%include file='/leaf.html'/>i%d" % j
+    sources["/leaf.html"] = "L"
 
-            def work(w):
-                bar.wait()
-                try:
-                    outs[w] = TemplateLookup_render(lk2, w)
-                except BaseException as e:  # noqa
-                    outs[w] = "raised " + type(e).__name__ + str(e)[:60]
-            ths = [threading.Thread(target=work, args=(w,)) for w in range(n_threads)]
-            for t in ths:
-                t.start()
-            for t in ths:
-                t.join(60)
+    needed = {"plain": ["/base.html", "/ns.html", "/page.html", "/inc.html"], "cache": ["/cached.html"],
+              "lru": ["/many.html", "/leaf.html"] + ["/i%d.html" % j for j in range(6)]}
+
+    def mk(kind):
+        def factory():
+            LangImpl.store = {}
+            if kind == "lru":
+                # put_string entries have no file to come back from once evicted (C14-F1): bound only
+                # the uri cache, which every include writes at render time outside the mutex
+                from mako import util
+                lk = TemplateLookup()
+                lk._uri_cache = util.LRUCache(2)
+            elif kind == "cache":
+                lk = TemplateLookup(cache_impl="c16lang")
+            else:
+                lk = TemplateLookup()
+            for k_ in needed[kind]:
+                lk.put_string(k_, sources[k_])
+            return lk
+        return factory
+    hello = {"en": "Hello", "fr": "Bonjour"}
+    return [
+        ("inherit-namespace-include", mk("plain"), [("/page.html", dict(who="t0", k=3)), ("/page.html", dict(who="t1", k=4))]),
+        ("cached-def-context-backend", mk("cache"), [("/cached.html", dict(who="a", lang="en", hello=hello)), ("/cached.html", dict(who="b", lang="fr", hello=hello))]),
+        ("lru-lookup-includes", mk("lru"), [("/many.html", dict(who="x")), ("/many.html", dict(who="y"))]),
+    ]
+
+
+def render_isolation(ctx, tier):
+    """concurrent renders with distinct contexts each equal their solo output (exploration):
+    line-level preemption with a bounded number of context switches, plus free-running rounds"""
+    rng = ctx.rng
+    nplans = 40 if tier == "quick" else 1500
+    for name, factory, jobs in _render_scenarios():
+        solo = []
+        for uri, c in jobs:
+            lk = factory()
+            solo.append(lk.get_template(uri).render(**c))
+        # how many traced lines does each job run alone?
+        sizes = []
+        for w, (uri, c) in enumerate(jobs):
+            lk = factory()
+            cnt = BudgetSched(1)
+            outs, _ = cnt.run([lambda u=uri, c=c, lk=lk: lk.get_template(u).render(**c)], [(0, 1 << 40)])
+            sizes.append(cnt.lines[0])
+        ctx.dist["render_lines:" + name] = sizes
+        # single preemption at (nearly) every line of each job, then a seeded sample with two preemptions
+        plans = []
+        for w in range(len(jobs)):
+            n = max(sizes[w], 1)
+            stride = 1 if (tier != "quick" or n <= 800) else 2
+            for p in range(1, n + 1, stride):
+                plans.append([(w, p), (1 - w if len(jobs) == 2 else (w + 1) % len(jobs), 1 << 40)])
+        for _ in range(nplans):
+            a = rng.randrange(len(jobs))
+            plans.append([(a, rng.randint(1, max(sizes[a], 2))), ((a + 1) % len(jobs), rng.randint(1, max(sizes[(a + 1) % len(jobs)], 2))), (a, rng.randint(1, 50))])
+        for r in range(len(plans)):
+            lk = factory()
+            # warm some rounds so that both first-use initialisation and steady state are explored
+            if r % 3 == 2:
+                for uri, c in jobs:
+                    lk.get_template(uri).render(**c)
+            plan = plans[r]
+            sch = BudgetSched(len(jobs))
+            fns = [(lambda u=u, c=c: lk.get_template(u).render(**c)) for u, c in jobs]
+            outs, hang = sch.run(fns, plan)
             ctx.evaluations += 1
-            ctx.nontrivial.add(("render", r))
-            for w in range(n_threads):
-                if outs.get(w) != solo[w]:
-                    ctx.violation({"round": r, "thread": w, "solo": solo[w], "concurrent": outs.get(w)},
-                                  "a concurrent render differs from the same render run alone", tags=["c16.render"])
+            ctx.nontrivial.add(("render", name, tuple(plan)))
+            case = {"scenario": name, "plan": plan, "solo": solo, "concurrent": outs}
+            if hang:
+                ctx.violation(case, "a render neither finished nor reached a scheduling point", tags=["c16.render.hang"])
+                return
+            for w in range(len(jobs)):
+                if outs[w] != solo[w]:
+                    ctx.violation(case, "a concurrent render differs from the same render run alone", tags=["c16.render"])
                     return
-    finally:
-        sys.setswitchinterval(old)
+    ctx.generators["render_preemption"] = {"scenarios": [s[0] for s in _render_scenarios()], "plans_per_scenario": nplans,
+                                           "method": "sys.settrace line-level scheduling points, 1-4 budgeted context switches per plan"}
 
 
 def TemplateLookup_render(lk, w):
